@@ -256,6 +256,7 @@ func (c *Ctx) Finish(verifDir string, seed int, t0 time.Time, explanation string
 		assumptions = append(assumptions, a)
 	}
 	assumptions = append(assumptions, extraAssume...)
+	assumptions = append(assumptions, "rules see the shape of the type-checked program (go/ssa), not runtime values; no reflection or unsafe; anchors are named program elements resolved through go/types")
 	sort.Strings(assumptions)
 	stats := map[string]int{}
 	for k, v := range c.Stats {
